@@ -209,6 +209,39 @@ func (m *PrefixModel) Judge(client string, req []ReqPD, rep []ReplyPD, tBefore, 
 			add("C09", "hintless-repeat-got-different-prefix", "client %x holds %v and sent an IA_PD without any prefix hint; the answer %s does not contain %v", client, keys(known), describeReply(rep), missing)
 		}
 	}
+	// a holder whose message only asks for what it holds (exact prefixes and/or hint-less IA_PDs) - in
+	// particular a retransmission of such a message - must not be given additional blocks
+	// (an IA_PD that mixes exact prefixes with an unspecified hint, or carries several unspecified
+	// hints, asks for something in addition to what is held: not covered by this rule)
+	pure := len(known) > 0 && len(req) > 0
+	for _, r := range req {
+		nUnspec, nExact := 0, 0
+		for _, h := range r.Hints {
+			if h.unspecified() {
+				nUnspec++
+				continue
+			}
+			if _, ok := known[h.key()]; !ok {
+				pure = false
+			}
+			nExact++
+		}
+		if nUnspec > 1 || (nUnspec == 1 && nExact > 0) {
+			pure = false
+		}
+	}
+	if pure {
+		var extra []string
+		for k := range told {
+			if _, ok := known[k]; !ok {
+				extra = append(extra, k)
+			}
+		}
+		sort.Strings(extra)
+		if len(extra) > 0 {
+			add("C09", "renewal-consumed-new-block", "client %x holds %v and asked only for what it holds (%d IA_PD); the answer additionally delegates %v: a renewal/retransmission consumed blocks of the pool", client, keys(known), len(req), extra)
+		}
+	}
 	// lifetime not shorter than what remained
 	for k, p := range told {
 		if old, ok := known[k]; ok {
